@@ -306,6 +306,7 @@ structure WordClass (isWord : Char → Bool) : Prop where
   lbrace : isWord '{' = false
   rbrace : isWord '}' = false
   field : ∀ c ∈ "field_".toList, isWord c = true
+  xword : isWord 'x' = true
   nows : ∀ c, isWord c = true → c.isWhitespace = false
 
 theorem field_toList : "field_".toList = ['f', 'i', 'e', 'l', 'd', '_'] := by decide
